@@ -748,6 +748,133 @@ func gatedRegistration(r *mon.Run, e *connEnv, k int) {
 	r.Distinct(fmt.Sprintf("gated-registration/held-request=%d", holdAt))
 }
 
+// lastProviderChurn: ONE back-end is registered and dropped over and over
+// while readers hammer its variable-free routes (a literal-only binding, the
+// implicit /package.Service/Method binding) and a variable one. Each drop
+// takes the methods' last handler away, so their routes go with it. Readers
+// may see 200 or 404, never a matched route without handler (501); the
+// writer, which is the only one changing the mux, asks again after every
+// call returned: 200 after RegisterConn, 404 after DropConn - a request
+// issued after the call returned is resolved against the state it published.
+func lastProviderChurn(r *mon.Run, rounds int) {
+	fw := &vschema.File{Path: "vf/cw.proto", Pkg: "vf.cw", Services: []vschema.Service{{Name: "W", Methods: []vschema.Method{
+		{Name: "Me0", In: "vf.Req", Out: "vf.Rsp", Rule: &annotations.HttpRule{Pattern: &annotations.HttpRule_Get{Get: "/cw/static"}, AdditionalBindings: []*annotations.HttpRule{getRule("/cw/m0/{a}"), getRule("/cw/deep/er/static")}}},
+		{Name: "Me1", In: "vf.Req", Out: "vf.Rsp", Rule: getRule("/cw/m1/{a}")},
+	}}}}
+	fdW, err := fw.Build()
+	if err != nil {
+		r.Inconclusive("harness: " + err.Error())
+		return
+	}
+	solo, err := backend.Start("solo", true, backend.Svc{SD: fdW.Services().ByName("W"), Impl: taggedImpl{"solo"}})
+	if err != nil {
+		r.Inconclusive("harness: " + err.Error())
+		return
+	}
+	defer solo.Close()
+	mux, err := larking.NewMux()
+	if err != nil {
+		r.Inconclusive("harness: " + err.Error())
+		return
+	}
+	type probe struct{ verb, path string }
+	probes := []probe{{"GET", "/cw/static"}, {"POST", "/vf.cw.W/Me0"}, {"GET", "/cw/deep/er/static"}, {"POST", "/vf.cw.W/Me1"}, {"GET", "/cw/m0/v"}}
+	do := func(p probe) *wire.Resp {
+		if p.verb == "POST" {
+			return wire.Serve(mux, wire.BodyRequest("POST", p.path, "", http.Header{"Content-Type": {"application/json"}}, []byte(`{"a":"i"}`)))
+		}
+		return wire.Serve(mux, wire.BodyRequest("GET", p.path, "", nil, nil))
+	}
+	var vmu sync.Mutex
+	var script []string
+	viol := func(key, what string) {
+		vmu.Lock()
+		defer vmu.Unlock()
+		sc := script
+		if len(sc) > 12 {
+			sc = sc[len(sc)-12:]
+		}
+		r.Violate(key, what, map[string]any{"lane": "last-provider-churn", "last_ops": append([]string(nil), sc...)})
+	}
+	var stop int32
+	var wg sync.WaitGroup
+	var nreq int64
+	for c := 0; c < 4; c++ {
+		wg.Add(1)
+		go func(c int) {
+			defer wg.Done()
+			for i := 0; atomic.LoadInt32(&stop) == 0; i++ {
+				p := probes[(i+c)%len(probes)]
+				resp := do(p)
+				atomic.AddInt64(&nreq, 1)
+				switch {
+				case resp.Wedged:
+					r.Inconclusive("churn lane request did not return")
+					return
+				case resp.Panic != nil:
+					viol(resp.Panic.Key(), p.verb+" "+p.path+" panicked: "+resp.Panic.Value)
+					return
+				case resp.Code == http.StatusOK && strings.Contains(string(resp.Body), `"solo"`), resp.Code == http.StatusNotFound:
+				case resp.Code == http.StatusNotImplemented:
+					viol("route-without-handler:last-provider-churn", fmt.Sprintf("%s %s answered 501: the route was matched but the method has no handler; the request was resolved against two different routing states", p.verb, p.path))
+					return
+				default:
+					viol(fmt.Sprintf("request-failed-with-live-backends:%d:last-provider-churn", resp.Code), fmt.Sprintf("%s %s answered %d %.120q while its only back-end is up and merely registered / dropped", p.verb, p.path, resp.Code, resp.Body))
+					return
+				}
+			}
+		}(c)
+	}
+	for i := 0; i < rounds && r.Violations() == 0; i++ {
+		ctx, cancel := context.WithTimeout(context.Background(), 20*time.Second)
+		var rerr error
+		pi := mon.Catch(func() { rerr = mux.RegisterConn(ctx, solo.CC) })
+		if pi != nil || rerr != nil {
+			cancel()
+			if pi != nil {
+				viol(pi.Key(), "RegisterConn panicked: "+pi.Value)
+			} else if ctx.Err() != nil {
+				r.Inconclusive("RegisterConn timed out")
+			} else {
+				viol("RegConn-error:last-provider-churn", "RegisterConn of the only back-end failed: "+rerr.Error())
+			}
+			break
+		}
+		vmu.Lock()
+		script = append(script, "RegConn(solo)")
+		vmu.Unlock()
+		for _, p := range probes {
+			if resp := do(p); resp.Panic == nil && !resp.Wedged && resp.Code != http.StatusOK {
+				viol("registered-method-not-served-after-RegisterConn-returned", fmt.Sprintf("%s %s answered %d %.100q after RegisterConn returned nil (round %d)", p.verb, p.path, resp.Code, resp.Body, i))
+			}
+		}
+		var was bool
+		pi = mon.Catch(func() { was = mux.DropConn(ctx, solo.CC) })
+		cancel()
+		if pi != nil {
+			viol(pi.Key(), "DropConn panicked: "+pi.Value)
+			break
+		}
+		if !was {
+			viol("DropConn-returned-false:last-provider-churn", "DropConn of the registered connection returned false")
+		}
+		vmu.Lock()
+		script = append(script, "DropConn(solo)")
+		vmu.Unlock()
+		for _, p := range probes {
+			if resp := do(p); resp.Panic == nil && !resp.Wedged && resp.Code != http.StatusNotFound {
+				viol(fmt.Sprintf("dropped-route-still-resolved:%d", resp.Code), fmt.Sprintf("%s %s answered %d %.100q after DropConn of the method's only back-end returned (round %d); nothing registers concurrently", p.verb, p.path, resp.Code, resp.Body, i))
+			}
+		}
+		r.Eval(1)
+	}
+	atomic.StoreInt32(&stop, 1)
+	wg.Wait()
+	r.Count("last_provider_churn_rounds", rounds)
+	r.Count("last_provider_churn_reader_requests", int(atomic.LoadInt64(&nreq)))
+	r.Distinct("last-provider-churn")
+}
+
 func connLane(r *mon.Run) {
 	e, err := newConnEnv()
 	if err != nil {
@@ -758,6 +885,7 @@ func connLane(r *mon.Run) {
 	for k := 0; k < r.Pick(3, 30); k++ {
 		gatedRegistration(r, e, k)
 	}
+	lastProviderChurn(r, r.Pick(40, 800))
 	rng := r.Rand("c12-conn")
 	n := r.Pick(6, 300)
 	for i := 0; i < n; i++ {
